@@ -388,8 +388,36 @@ def r10d(ctx):
                       "KeyValuePairEdit no longer rejects differing keys when key edits are not allowed")
 
 
+def r10e(ctx):
+    m = ctx.model
+    ctx.rule("R10e", "the option reaches the edit unchanged: every construction of MultiSetEdit passes `auto_match_keys=<node>.auto_match_keys` "
+                     "as it is - weakened by a size test or any other condition, a key present in both mappings skips the pre-match under "
+                     "the `auto` strategy and is paired by cost")
+    from ..astx import resolve_local
+    n = 0
+    for fq, f in sorted(m.functions.items()):
+        for c in walk_no_nested(f.node):
+            if not (isinstance(c, ast.Call) and (call_name(c) or "").rsplit(".", 1)[-1] == "MultiSetEdit"):
+                continue
+            n += 1
+            v = kwarg(c, "auto_match_keys", 4)
+            rv = resolve_local(f.node, v) if v is not None else None
+            if rv is not None and isinstance(rv, ast.Attribute) and rv.attr == "auto_match_keys":
+                ctx.proved("R10e", f.file, f.short, c, f"{f.short}: auto_match_keys", f"auto_match_keys={norm(rv, 40)}")
+            elif v is None:
+                ctx.violation("R10e", f.file, f.short, c, f"{f.short}: auto_match_keys",
+                              "MultiSetEdit is constructed without auto_match_keys: the edit's default applies, whatever the strategy chosen")
+            else:
+                ctx.violation("R10e", f.file, f.short, c, f"{f.short}: auto_match_keys",
+                              f"MultiSetEdit receives auto_match_keys=`{norm(rv, 70)}`, not the node's option as it is: where the condition "
+                              f"switches it off ({{'a': 1}} vs {{'a': 'zzzzzzzz', 'b': 1}}) the shared key is left to the matcher, which pairs "
+                              f"it with the cheaper entry")
+    ctx.floor("R10e", n, 1, "MultiSetEdit constructions")
+
+
 def run(ctx):
     r10a(ctx)
+    r10e(ctx)
     r10b(ctx)
     c01.r01a(ctx)     # R10c: only a surplus tail is removed or inserted, pairs strictly by position
     c01.r01d(ctx)     # `none`: partner looked up by the same key
